@@ -11,11 +11,12 @@ for d in seeded/*${PAT}*/; do
   want=$(python3 -c "import json;m=json.load(open('$d/meta.json'));print('caught' if m.get('breaks_property') else 'silent')")
   for p in $props; do
     out=$(timeout 2400 ./mutant_eval.sh "$d/patch.diff" "$p" 2>&1 | grep -E "^RESULT" | head -1)
+    odir=$(echo "$out" | sed -n 's/.*out=\(\/var\/tmp\/mutout-[A-Za-z0-9]*\).*/\1/p')
     case "$out" in
       *CAUGHT*) got=caught;; *MISSED*) got=silent;; *) got=trouble;;
     esac
     st=OK; [ "$got" = "$want" ] || st=UNEXPECTED
     echo "$st $id $p want=$want got=$got"
-    rm -rf /var/tmp/mutout-*
+    [ -n "$odir" ] && rm -rf "$odir"
   done
 done
